@@ -7,8 +7,8 @@
 //! `RetentionManager::enforce`, `TensorStore::{snapshot_bytes,restore_from_bytes,get,exists}`.
 //!
 //! Part M (main): breadth-first over statement histories from a small collision-forcing alphabet
-//!   (one table with two rows, nodes 1/2 and the edge 1->2, embeddings a/b, CHECKPOINT 'c<k>',
-//!   ROLLBACK TO 'c<j>' for every checkpoint the reference says is retained).  A state *is* its
+//!   (one table with two rows, nodes 1/2 and the edge 1->2, embeddings a/b, CHECKPOINT '<name k>',
+//!   ROLLBACK TO '<name j>' for every checkpoint the reference says is retained).  A state *is* its
 //!   history: to expand it the history is replayed on a fresh router (own OS thread, fixed entropy
 //!   seed) and one more statement is executed.  After every statement a fixed read battery is taken.
 //!   Oracle (differential, no expected values): the battery right after `ROLLBACK TO c` equals the
@@ -29,6 +29,21 @@
 //! Part B (Bloom-filtered store): the BFS of part M (one level shallower) on
 //!   `QueryRouter::with_shared_store(TensorStore::with_bloom_filter(4096, 0.001))`; a violating history
 //!   is re-run on the plain store: what fails only with the filter gets a `c08:bloom-store:` signature.
+//! Checkpoint names (all parts): the k-th manual checkpoint of a history is named by k letters 'c'
+//!   ('c', 'cc', 'ccc', scheme 0) or by 13-k letters (scheme 1), so any two retained names stand in a
+//!   proper-prefix relation, in one direction or the other.  The ROLLBACK under test addresses a manual
+//!   checkpoint by name; the tail addresses it by its full id as well.  If after a successful ROLLBACK the
+//!   database is exactly the image of ANOTHER retained checkpoint the signature is
+//!   `c08:rollback-by-name-restores-another-checkpoint` (`-by-id-`).  Abbreviated ids are not used: the
+//!   book (query-language.md, tensor-checkpoint.md) and the shell help promise lookup by name or id only.
+//! Parts Q (query cache) and E (entry points): the BFS of part M on a router with `init_cache()` and/or
+//!   with every statement going through `execute_parsed_async` (driven by `QueryRouter::block_on`), or
+//!   with CHECKPOINT / ROLLBACK TO going through `execute` / `execute_for_cluster`.  With the cache on the
+//!   cacheable reads of the battery run before the first and after every statement, so a ROLLBACK always
+//!   meets a cache filled with the pre-rollback answers; the same texts must return the record afterwards.
+//!   What fails only with the cache is `c08:query-cache:stale-after-rollback:<sync|async|..>`, what fails
+//!   only through another entry point `c08:<async|..>-entry:<check>`.
+//! Parts with the same max_checkpoints are explored concurrently; their reports are applied in part order.
 use nvc::Report;
 use query_router::{QueryResult, QueryRouter};
 use serde_json::{json, Value};
@@ -53,7 +68,9 @@ struct Cfg {
     cache: bool,
     /// entry point the statements go through: 0 = `execute_parsed`, 1 = `execute_parsed_async`
     /// (driven by `QueryRouter::block_on`), 2 = CHECKPOINT / ROLLBACK TO through the string-command
-    /// entry point `execute`, the rest through `execute_parsed`
+    /// entry point `execute`, the rest through `execute_parsed`, 3 = CHECKPOINT / ROLLBACK TO through
+    /// `execute_for_cluster` (what `QueryExecutor::execute` calls for remote queries), the rest
+    /// through `execute_parsed`
     entry: u8,
     /// checkpoint naming scheme: 0 = the k-th checkpoint is named by k letters 'c' (every older name is
     /// a proper prefix of every newer one), 1 = by NAME_MAX+1-k letters (every newer name is a proper
@@ -93,7 +110,8 @@ impl Cfg {
         match self.entry {
             0 => "execute_parsed",
             1 => "execute_parsed_async",
-            _ => "execute(CHECKPOINT/ROLLBACK)+execute_parsed",
+            2 => "execute(CHECKPOINT/ROLLBACK)+execute_parsed",
+            _ => "execute_for_cluster(CHECKPOINT/ROLLBACK)+execute_parsed",
         }
     }
     /// short form used in signatures
@@ -101,7 +119,8 @@ impl Cfg {
         match self.entry {
             0 => "sync",
             1 => "async",
-            _ => "legacy-execute",
+            2 => "legacy-execute",
+            _ => "cluster-execute",
         }
     }
     fn from_entry_name(n: &str) -> u8 {
@@ -109,6 +128,8 @@ impl Cfg {
             1
         } else if n.starts_with("execute(") {
             2
+        } else if n.starts_with("execute_for_cluster(") {
+            3
         } else {
             0
         }
@@ -296,6 +317,8 @@ impl Sys {
             // refuses inside `block_on`: these two scans (never cached) stay on the synchronous entry
             1 if !is_scan(s) => self.r.block_on(self.r.execute_parsed_async(s)).expect("the router has a runtime once init_blob() ran"),
             2 if s.starts_with("CHECKPOINT ") || s.starts_with("ROLLBACK ") => self.r.execute(s),
+            // the serialized result is not decoded (CHECKPOINT / ROLLBACK results are only looked at as Ok / Err)
+            3 if s.starts_with("CHECKPOINT ") || s.starts_with("ROLLBACK ") => self.r.execute_for_cluster(s).map(|_| QueryResult::Empty).map_err(query_router::RouterError::CheckpointError),
             _ => self.r.execute_parsed(s),
         }
     }
@@ -530,6 +553,9 @@ struct Outcome {
     cached_entries_before_rollbacks: u64,
     /// batteries taken only to fill the query cache
     cache_filling_batteries: u64,
+    /// main rollback checks where an answer that sat in the query cache when ROLLBACK ran differs
+    /// from the recorded one (serving it after the rollback would be noticed)
+    cached_answer_differs_from_record: u64,
 }
 
 fn h64<T: Hash>(t: &T, salt: u64) -> u64 {
@@ -916,6 +942,12 @@ fn run(hist: &[St], cfg: Cfg, selftest: bool, verbose: bool) -> Outcome {
                     let added = [Fam::Rel, Fam::Graph, Fam::Vector].iter().any(|f| matches!(first_diff(&rec, &cur, *f), Some((_, k, _, _)) if k != "missing"));
                     let removed = [Fam::Rel, Fam::Graph, Fam::Vector].iter().any(|f| matches!(first_diff(&rec, &cur, *f), Some((_, k, _, _)) if k != "extra"));
                     cx.out.nontrivial.push((h64(&(&rec, &cur), 1), added, removed, cp.auto));
+                }
+                if cfg.cache {
+                    let cacheable = |q: &str| q.starts_with("SELECT") || q.starts_with("NEIGHBORS") || q.starts_with("SIMILAR");
+                    // the router caches successful answers only
+                    let differs = rec.reads.iter().zip(&cur.reads).any(|(a, b)| cacheable(&b.1) && b.2.is_some() && a.2 != b.2);
+                    cx.out.cached_answer_differs_from_record += u64::from(differs);
                 }
                 cx.out.auto_rollback_checks += u64::from(cp.auto);
                 let r = rollback_and_check(&sys, &mut m, &mut cx, &cp, "main", false);
@@ -1422,13 +1454,14 @@ fn main() {
             configs.push(Part { name: "Q_async_max3", cfg: Cfg { names: 1, ..q_async }, k: 3, depth: 4, extra: true, alphabet: &alphabet });
             configs.push(Part { name: "E_async", cfg: Cfg { entry: 1, ..plain }, k: 2, depth: 4, extra: true, alphabet: &alphabet });
             configs.push(Part { name: "E_legacy", cfg: legacy, k: 2, depth: 4, extra: true, alphabet: &alphabet });
-            configs.push(Part { name: "Q_legacy", cfg: Cfg { cache: true, ..legacy }, k: 2, depth: 4, extra: true, alphabet: &alphabet });
+            configs.push(Part { name: "Q_legacy", cfg: Cfg { cache: true, names: 1, ..legacy }, k: 2, depth: 4, extra: true, alphabet: &alphabet });
+            configs.push(Part { name: "Q_cluster", cfg: Cfg { cache: true, entry: 3, ..plain }, k: 2, depth: 4, extra: true, alphabet: &alphabet });
         } else {
             configs.push(Part { name: "A", cfg: auto, k: 2, depth: 4, extra: true, alphabet: &alphabet_a });
             configs.push(Part { name: "B", cfg: bloom, k: 2, depth: 4, extra: false, alphabet: &alphabet });
             configs.push(Part { name: "Q_sync", cfg: q_sync, k: 2, depth: 4, extra: false, alphabet: &alphabet });
             configs.push(Part { name: "Q_async", cfg: q_async, k: 2, depth: 4, extra: false, alphabet: &alphabet });
-            configs.push(Part { name: "E_legacy", cfg: legacy, k: 2, depth: 3, extra: true, alphabet: &alphabet });
+            configs.push(Part { name: "Q_legacy", cfg: Cfg { cache: true, names: 1, ..legacy }, k: 2, depth: 3, extra: true, alphabet: &alphabet });
         }
     }
     if let Some(only) = &only {
@@ -1453,7 +1486,7 @@ fn main() {
         describe(&|c| c.cfg.bloom != 0)
     ));
     rep.rule(&format!(
-        "Q (query cache) / E (entry points): the BFS of M (same alphabet, same oracle) on a router with QueryRouter::init_cache() (Q) and/or with every statement and every read going through another entry point: execute_parsed_async driven by QueryRouter::block_on (NODE LIST / EDGE LIST, which are not cacheable and build their own runtime, stay on execute_parsed), or CHECKPOINT / ROLLBACK TO through the string-command entry point execute; parts {:?}. With the cache on, the read battery (2 SELECT, 18 NEIGHBORS, 2 SIMILAR are cacheable) runs before the first and after every statement, so every answer the cache accepts is cached when ROLLBACK runs; after the ROLLBACK (and after every later statement of the tail) the same statement texts must return the recorded battery. A violating history is re-run without the cache, then through execute_parsed: what shows only with the cache is reported as c08:query-cache:stale-after-rollback:<sync|async|legacy-execute> (other checks: c08:query-cache:<check>:<entry>), what shows only through the other entry point as c08:<async|legacy-execute>-entry:<check>. If after a successful ROLLBACK every read equals the battery recorded for ANOTHER retained checkpoint (and not the target's), the violation is c08:rollback-by-name-restores-another-checkpoint / c08:rollback-by-id-restores-another-checkpoint instead of c08:rollback-data:*",
+        "Q (query cache) / E (entry points): the BFS of M (same alphabet, same oracle) on a router with QueryRouter::init_cache() (Q) and/or with every statement and every read going through another entry point: execute_parsed_async driven by QueryRouter::block_on (NODE LIST / EDGE LIST, which are not cacheable and build their own runtime, stay on execute_parsed), or CHECKPOINT / ROLLBACK TO through the string-command entry point execute, or through execute_for_cluster (= QueryExecutor::execute, result bytes not decoded); parts {:?}. With the cache on, the read battery (2 SELECT, 18 NEIGHBORS, 2 SIMILAR are cacheable) runs before the first and after every statement, so every answer the cache accepts is cached when ROLLBACK runs; after the ROLLBACK (and after every later statement of the tail) the same statement texts must return the recorded battery. A violating history is re-run without the cache, then through execute_parsed: what shows only with the cache is reported as c08:query-cache:stale-after-rollback:<sync|async|legacy-execute|cluster-execute> (other checks: c08:query-cache:<check>:<entry>), what shows only through the other entry point as c08:<async|legacy-execute|cluster-execute>-entry:<check>. If after a successful ROLLBACK every read equals the battery recorded for ANOTHER retained checkpoint (and not the target's), the violation is c08:rollback-by-name-restores-another-checkpoint / c08:rollback-by-id-restores-another-checkpoint instead of c08:rollback-data:*",
         describe(&|c| c.cfg.cache || c.cfg.entry != 0)
     ));
     rep.assume("query-cache parts use only statements that go through one entry point (execute_parsed or execute_parsed_async): writes through the string-command parser `execute` (DropTableX) are kept out of them, their cache bookkeeping is not the subject of C08; auto-checkpoints are not combined with execute_parsed_async (protect_destructive_op blocks on the router's runtime, which tokio refuses inside block_on)");
@@ -1471,33 +1504,40 @@ fn main() {
     // ---- parts M, A, B
     let mut vacuous: Vec<String> = vec![];
     // parts with the same max_checkpoints are explored concurrently (each with its own worker
-    // processes per BFS level: the first levels of a part are too small to occupy the machine);
-    // their reports are applied in part order
-    let concurrent = configs.iter().all(|c| c.k == configs[0].k) && rep.args.flag("sequential").is_none();
-    let mut results: Vec<(Stats, Deferred)> = vec![];
-    if concurrent && !configs.is_empty() {
-        MAX_CP.store(configs[0].k, std::sync::atomic::Ordering::Relaxed);
-        results = std::thread::scope(|sc| {
-            let hs: Vec<_> = configs
-                .iter()
-                .map(|c| {
-                    sc.spawn(move || {
-                        let mut d = Deferred::default();
-                        let st = explore(&mut d, c, workers, selftest);
-                        (st, d)
-                    })
-                })
-                .collect();
-            hs.into_iter().map(|h| h.join().expect("part thread panicked")).collect()
-        });
-    } else {
-        for c in &configs {
-            MAX_CP.store(c.k, std::sync::atomic::Ordering::Relaxed);
-            let mut d = Deferred::default();
-            let st = explore(&mut d, c, workers, selftest);
-            results.push((st, d));
+    // processes per BFS level: the first levels of a part are too small to occupy the machine, and
+    // MAX_CP is one per process); their reports are applied in part order
+    let sequential = rep.args.flag("sequential").is_some();
+    let mut slots: Vec<Option<(Stats, Deferred)>> = configs.iter().map(|_| None).collect();
+    let mut ks: Vec<usize> = vec![];
+    for c in &configs {
+        if !ks.contains(&c.k) {
+            ks.push(c.k);
         }
     }
+    for k in ks {
+        MAX_CP.store(k, std::sync::atomic::Ordering::Relaxed);
+        let group: Vec<usize> = (0..configs.len()).filter(|i| configs[*i].k == k).collect();
+        let run_one = |c: &Part| {
+            let mut d = Deferred::default();
+            let st = explore(&mut d, c, workers, selftest);
+            (st, d)
+        };
+        if sequential {
+            for i in group {
+                slots[i] = Some(run_one(&configs[i]));
+            }
+        } else {
+            let done: Vec<(usize, (Stats, Deferred))> = std::thread::scope(|sc| {
+                let (cfgs, run_one) = (&configs, &run_one);
+                let hs: Vec<_> = group.iter().map(|&i| (i, sc.spawn(move || run_one(&cfgs[i])))).collect();
+                hs.into_iter().map(|(i, h)| (i, h.join().expect("part thread panicked"))).collect()
+            });
+            for (i, r) in done {
+                slots[i] = Some(r);
+            }
+        }
+    }
+    let results: Vec<(Stats, Deferred)> = slots.into_iter().map(|s| s.expect("every part explored")).collect();
     for (c, (st, d)) in configs.iter().zip(results) {
         d.apply(&mut rep);
         if c.name == "M" && (st.states < 200 || st.nontrivial < 50 || st.nt_added == 0 || st.nt_removed == 0 || st.purges == 0) {
@@ -1522,10 +1562,10 @@ fn main() {
         if c.name == "M" && (st.by_name < 100 || st.by_id < 100 || st.name_is_prefix_of_other < 50 || st.prefix_confusable < 50) {
             vacuous.push(format!("M: too few rollbacks by name / by id / whose name is a proper prefix of another retained name / where the prefix-related checkpoint has a different image ({} / {} / {} / {})", st.by_name, st.by_id, st.name_is_prefix_of_other, st.prefix_confusable));
         }
-        if c.cfg.cache && c.cfg.entry != 2 && (st.states < 200 || st.nontrivial < 20 || st.nt_added == 0 || st.nt_removed == 0 || st.rollbacks_with_cache < 100 || st.other_is_prefix_of_name + st.name_is_prefix_of_other < 20) {
-            vacuous.push(format!("{}: too few distinct states / non-trivial rollbacks / rollbacks with a populated query cache / prefix-related names ({} / {} / {} / {})", c.name, st.states, st.nontrivial, st.rollbacks_with_cache, st.other_is_prefix_of_name + st.name_is_prefix_of_other));
+        if c.cfg.cache && (st.states < 200 || st.nontrivial < 20 || st.nt_added == 0 || st.nt_removed == 0 || st.rollbacks_with_cache < 100 || st.cache_nontrivial < 20 || st.other_is_prefix_of_name + st.name_is_prefix_of_other < 20) {
+            vacuous.push(format!("{}: too few distinct states / non-trivial rollbacks / rollbacks with a populated query cache / with a cached answer that differs from the record / prefix-related names ({} / {} / {} / {} / {})", c.name, st.states, st.nontrivial, st.rollbacks_with_cache, st.cache_nontrivial, st.other_is_prefix_of_name + st.name_is_prefix_of_other));
         }
-        if c.cfg.entry == 2 && (st.nontrivial < 5 || st.rollback_checks < 50) {
+        if c.cfg.entry >= 2 && (st.nontrivial < 5 || st.rollback_checks < 50) {
             vacuous.push(format!("{}: too few rollback checks / non-trivial ones ({} / {})", c.name, st.rollback_checks, st.nontrivial));
         }
         rep.add("rollbacks_addressed_by_name", st.by_name);
@@ -1534,11 +1574,13 @@ fn main() {
         rep.add("rollbacks_by_name_where_prefix_related_checkpoint_has_another_image", st.prefix_confusable);
         if c.cfg.cache {
             rep.add("rollbacks_with_populated_query_cache", st.rollbacks_with_cache);
+            rep.add("main_rollbacks_where_a_cached_answer_differs_from_the_record", st.cache_nontrivial);
         }
         match c.cfg.entry {
             0 => rep.add("rollback_checks_via_execute_parsed", st.rollback_checks),
             1 => rep.add("rollback_checks_via_execute_parsed_async", st.rollback_checks),
-            _ => rep.add("rollback_checks_via_execute", st.rollback_checks),
+            2 => rep.add("rollback_checks_via_execute", st.rollback_checks),
+            _ => rep.add("rollback_checks_via_execute_for_cluster", st.rollback_checks),
         }
     }
     rep.add("evaluations", s_cases);
@@ -1587,6 +1629,7 @@ struct Stats {
     other_is_prefix_of_name: u64,
     prefix_confusable: u64,
     rollbacks_with_cache: u64,
+    cache_nontrivial: u64,
 }
 
 /// what a part wants to tell the report; applied in part order once the part has finished, so that
@@ -1705,6 +1748,7 @@ fn explore(rep: &mut Deferred, pt: &Part, workers: usize, selftest: bool) -> Sta
             tot.rollbacks_with_populated_cache += o.rollbacks_with_populated_cache;
             tot.cached_entries_before_rollbacks += o.cached_entries_before_rollbacks;
             tot.cache_filling_batteries += o.cache_filling_batteries;
+            tot.cached_answer_differs_from_record += o.cached_answer_differs_from_record;
             for (hh, a, r, au) in &o.nontrivial {
                 if nontrivial.insert(*hh) {
                     nt_added += u64::from(*a);
@@ -1753,7 +1797,7 @@ fn explore(rep: &mut Deferred, pt: &Part, workers: usize, selftest: bool) -> Sta
             "rollbacks_by_name_with_another_retained_name_that_is_a_proper_prefix": tot.other_is_prefix_of_name,
             "rollbacks_by_name_where_the_prefix_related_checkpoint_has_another_image": tot.prefix_confusable,
             "rollbacks_with_populated_query_cache": tot.rollbacks_with_populated_cache, "cached_entries_before_those_rollbacks": tot.cached_entries_before_rollbacks,
-            "cache_filling_batteries": tot.cache_filling_batteries,
+            "cache_filling_batteries": tot.cache_filling_batteries, "main_rollbacks_where_a_cached_answer_differs_from_the_record": tot.cached_answer_differs_from_record,
             "full_depth": full_depth, "extra_restricted_level": extra_level, "levels": levels, "replays": replays,
             "distinct_states": seen.len(), "distinct_data_observations": data_states.len(),
             "rollback_checks": tot.rollback_checks, "distinct_nontrivial_rollbacks": nontrivial.len(),
@@ -1788,5 +1832,6 @@ fn explore(rep: &mut Deferred, pt: &Part, workers: usize, selftest: bool) -> Sta
         other_is_prefix_of_name: tot.other_is_prefix_of_name,
         prefix_confusable: tot.prefix_confusable,
         rollbacks_with_cache: tot.rollbacks_with_populated_cache,
+        cache_nontrivial: tot.cached_answer_differs_from_record,
     }
 }
